@@ -45,7 +45,7 @@ def budget(tier):
 def _cases(draw):
     d = D(draw)
     desc = gen_schema(d, defaults=0.4 if d.bool(0.7) else 0.0, input_heavy=d.bool(0.6))
-    sdl = render_sdl_rich(d, desc, deprecations=d.bool(0.5))
+    sdl = render_sdl_rich(d, desc, deprecations=d.bool(0.5), schema_block_p=0.7)
     try:
         schema = build_schema(sdl)
         assert_valid_schema(schema)
@@ -221,6 +221,14 @@ def run_deliveries(case, scratch):
     errs = {d: json.load(open(os.path.join(scratch, f"gen_error_{d}.json"))) for d in ("file", "dir", "intro")
             if os.path.exists(os.path.join(scratch, f"gen_error_{d}.json"))}
     if "file" in errs:
+        if all(d in errs for d in ("dir", "intro")):  # every delivery fails alike: C04's business
+            return {"rejected": "every delivery fails (C04 territory): " + errs["file"]["msg"][:120]}
+        ok = [d for d in ("dir", "intro") if d not in errs]
+        if ok:
+            return {"failures": [{"clause": "delivery_fails", "sig": "file:" + errs["file"]["type"],
+                                  "msg": f"single-file delivery fails ({errs['file']['type']}: {errs['file']['msg'][:200]}) although the "
+                                         f"{' / '.join(ok)} delivery of the same schema generates a client"}],
+                    "units": 1, "features": feats}
         return {"rejected": "single-file delivery fails (C04 territory): " + errs["file"]["msg"][:120]}
     failures, nts, units = [], [], 0
     h = hashlib.sha256(json.dumps([case["sdl"], case["queries"], case["config"], case["tree"]], sort_keys=True).encode()).hexdigest()[:14]
